@@ -206,6 +206,8 @@ var (
 	rReadVia  = Rule{"TAB-READVIA", rules.TabReadVia}
 	rBigFit   = Rule{"NUM-BIGFIT", rules.NumBigFit}
 	rPoolRst  = Rule{"ORD-POOLRESET", rules.OrdPoolReset}
+	rSkipArms = Rule{"TAB-SKIPARMS", rules.TabSkipArms}
+	rImpAdj   = Rule{"ORD-IMPADJUST", rules.OrdImpAdjust}
 	rBigFresh = Rule{"OWN-BIGFRESH", rules.OwnBigFresh(rules.ScopeIon, 10)}
 	rFixedLST = Rule{"OWN-FIXEDLST", rules.OwnFixedLST}
 	rReflSet  = Rule{"TAB-REFLECTSET", rules.TabReflectSet}
@@ -325,28 +327,28 @@ var registry = map[string]*Property{
 		},
 	},
 	"C08": {
-		Decided:    "Every Reader method exit that refuses a call (returns a fresh *UsageError) is free of side effects on the reader (REFUSE-PURE); every token the tokenizer hands out as an unfinished value has a skip arm (TAB-TOKEN, skip arms); StepIn enters a nesting level only for a non-null container in both implementations (ORD-STEPIN); none of the lob readers and skippers reaches the comment-skipping whitespace routine, so skip and read agree that '/' inside {{ }} is data (OWN-LOBWS); in binary, reading a value and skipping it hand the same declared length to the primitive readers, so both end at the same byte (TAB-BUDGET). Every bitstream method that leaves a value passes clear() on each path to a successful exit (ORD-BSCLEAR); the text reader's raw scan for a container's end starts only when the tokenizer has no unfinished value (ORD-TOKFINISH). The bitstream keeps no value data in fields that clear() does not reset, so what a value decodes to does not depend on which values were decoded before (OWN-BSSCRATCH). The operator readers and the whitespace/comment skipper used when a container is skipped agree on where an operator ends (TAB-OPCOMMENT). No byte buffer kept in a field of a reader or writer is handed out (OWN-SCRATCHOUT: zero such buffers today; the rule constrains any that is introduced).",
+		Decided:    "Every Reader method exit that refuses a call (returns a fresh *UsageError) is free of side effects on the reader (REFUSE-PURE); every token the tokenizer hands out as an unfinished value has a skip arm (TAB-TOKEN, skip arms); StepIn enters a nesting level only for a non-null container in both implementations (ORD-STEPIN); none of the lob readers and skippers reaches the comment-skipping whitespace routine, so skip and read agree that '/' inside {{ }} is data (OWN-LOBWS); in binary, reading a value and skipping it hand the same declared length to the primitive readers, so both end at the same byte (TAB-BUDGET). Every bitstream method that leaves a value passes clear() on each path to a successful exit (ORD-BSCLEAR); the text reader's raw scan for a container's end starts only when the tokenizer has no unfinished value (ORD-TOKFINISH). The bitstream keeps no value data in fields that clear() does not reset, so what a value decodes to does not depend on which values were decoded before (OWN-BSSCRATCH). The operator readers and the whitespace/comment skipper used when a container is skipped agree on where an operator ends (TAB-OPCOMMENT). No byte buffer kept in a field of a reader or writer is handed out (OWN-SCRATCHOUT: zero such buffers today; the rule constrains any that is introduced). The container skipper uses every delimited-form skipper the value skippers use (TAB-SKIPARMS).",
 		Necessary:  "A refused StepIn/StepOut/accessor that changes cursor state, or a value kind that cannot be skipped, makes later results depend on the navigation.",
 		NotDecided: "agreement of skip and read on where an arbitrary value ends (finding F17, clob text containing '}', was repaired but no rule would detect its return)",
-		Technique:  ssaTech + "; " + tabTech + "; enum value-set and nil-fact dominance at nesting-level pushes; who-may-call check for the lob whitespace routines" + "; must-pass-through of clear() after state stores; typestate of the tokenizer's unfinished flag (finisher summaries by fixed point) before a raw scan" + "; field-write census of the bitstream against clear()" + "; presence of the comment-start test in operator-run loops" + "; escape walk of slices derived from receiver buffer fields, through helpers, append-style callees and call sites",
+		Technique:  ssaTech + "; " + tabTech + "; enum value-set and nil-fact dominance at nesting-level pushes; who-may-call check for the lob whitespace routines" + "; must-pass-through of clear() after state stores; typestate of the tokenizer's unfinished flag (finisher summaries by fixed point) before a raw scan" + "; field-write census of the bitstream against clear()" + "; presence of the comment-start test in operator-run loops" + "; escape walk of slices derived from receiver buffer fields, through helpers, append-style callees and call sites" + "; callee-set agreement between the token-level skippers and the container skipper",
 		DesignRef:  "DESIGN.md §3.1, §3.4, §4 C08",
-		Rules:      []Rule{rRefuse, only(rToken, 13, whatHas("skip arm")), rStepIn, rLobWS, rBudget, rBSClear, rTokFin, rBSScr, rOpCmt, rScrOut},
+		Rules:      []Rule{rRefuse, only(rToken, 13, whatHas("skip arm")), rStepIn, rLobWS, rBudget, rBSClear, rTokFin, rBSScr, rOpCmt, rScrOut, rSkipArms},
 	},
 	"C09": {
-		Decided:    "Every insertion into a symbol text index (buildIndex, symbolTableBuilder.Add, Build) happens only when the text is not present yet, with imports consulted before locals, or copies an existing index (ORD-FIRSTWINS); NewSymbolTokenBySID looks an ID up only after 0 <= sid <= MaxID() was established and rejects everything else (ORD-SIDBOUND); a local table resolves text through its imports before its own index on every path (ORD-IMPORTFIRST); Build neither writes to the builder nor hands the builder's own symbols/index storage to the built table (OWN-BUILD); every table object is built with an index that describes exactly the symbols it holds (TAB-INDEXPAIR). Every table sst.Adjust(n) returns has max_id n: a new table stores the parameter, the receiver is returned only under maxID == s.maxID (TAB-ADJUSTMAX).",
+		Decided:    "Every insertion into a symbol text index (buildIndex, symbolTableBuilder.Add, Build) happens only when the text is not present yet, with imports consulted before locals, or copies an existing index (ORD-FIRSTWINS); NewSymbolTokenBySID looks an ID up only after 0 <= sid <= MaxID() was established and rejects everything else (ORD-SIDBOUND); a local table resolves text through its imports before its own index on every path (ORD-IMPORTFIRST); Build neither writes to the builder nor hands the builder's own symbols/index storage to the built table (OWN-BUILD); every table object is built with an index that describes exactly the symbols it holds (TAB-INDEXPAIR). Every table sst.Adjust(n) returns has max_id n: a new table stores the parameter, the receiver is returned only under maxID == s.maxID (TAB-ADJUSTMAX). An import leaves readImport as nil, as a placeholder of the declared size, or as the result of Adjust(declared max_id) — never as the catalog's table as found (ORD-IMPADJUST).",
 		Necessary:  "An index insert that overwrites gives the highest instead of the lowest ID for a text and lets the builder renumber a known symbol; an unchecked ID above MaxID is not rejected.",
 		NotDecided: "the offset arithmetic across imports (processImports, findByIDInImports, Adjust) — numeric; immutability of built tables is decided under C18 (OWN-IMMUT), not here, because a write that keeps the numbering (a lazily built index) does not break this property",
-		Technique:  "SSA dominance facts keyed by canonical access path (comma-ok lookup / FindByName result false before the map update); CFG reachability between import and local lookups; parameter-rooted effect summary and copy-source tracing for Build; symbols/index pair tracing at table literals" + "; postcondition check of Adjust by branch facts at each return",
+		Technique:  "SSA dominance facts keyed by canonical access path (comma-ok lookup / FindByName result false before the map update); CFG reachability between import and local lookups; parameter-rooted effect summary and copy-source tracing for Build; symbols/index pair tracing at table literals" + "; postcondition check of Adjust by branch facts at each return" + "; value-origin check of readImport's result",
 		DesignRef:  "DESIGN.md §3.5, §4 C09",
-		Rules:      []Rule{rOrdFirstWins, rOrdSidBound, rImpFirst, rBuild, rIdxPair, rAdjMax},
+		Rules:      []Rule{rOrdFirstWins, rOrdSidBound, rImpFirst, rBuild, rIdxPair, rAdjMax, rImpAdj},
 	},
 	"C10": {
-		Decided:    "Every successful path of binaryReader.readBVM resets the context to the system table (ORD-BVMRESET); the text reader recognises an unquoted top-level $ion_1_0, resets the context on that edge and does not surface it as a value (ORD-TEXTIVM); once a top-level struct is recognised as $ion_symbol_table every exit reports 'not a user value' or an error (ORD-LSTHIDE); the symbol table reader dereferences accessor results only under the non-null precondition, so typed nulls in imports/name/version/max_id/symbols do not crash it (NIL-ACC scoped to readlocalsymboltable.go); every Reader field that can hold a resolved token is reset per value or after every assignment of the current table, so no token outlives the table it was resolved in (OWN-TOKCACHE); an import's declared max_id counts as declared from 0 upwards — only a negative or absent one falls back to the catalog (TAB-BOUNDS, readImport). The symbols list of a local symbol table yields one entry per element (ORD-APPENDEACH); a struct is a symbol table by its first annotation only (TAB-LSTFIRSTANN). imports: $ion_symbol_table hands back nothing only on an edge that established that the reader has no current table or only the system table (ORD-APPENDCARRY).",
+		Decided:    "Every successful path of binaryReader.readBVM resets the context to the system table (ORD-BVMRESET); the text reader recognises an unquoted top-level $ion_1_0, resets the context on that edge and does not surface it as a value (ORD-TEXTIVM); once a top-level struct is recognised as $ion_symbol_table every exit reports 'not a user value' or an error (ORD-LSTHIDE); the symbol table reader dereferences accessor results only under the non-null precondition, so typed nulls in imports/name/version/max_id/symbols do not crash it (NIL-ACC scoped to readlocalsymboltable.go); every Reader field that can hold a resolved token is reset per value or after every assignment of the current table, so no token outlives the table it was resolved in (OWN-TOKCACHE); an import's declared max_id counts as declared from 0 upwards — only a negative or absent one falls back to the catalog (TAB-BOUNDS, readImport). The symbols list of a local symbol table yields one entry per element (ORD-APPENDEACH); a struct is a symbol table by its first annotation only (TAB-LSTFIRSTANN). imports: $ion_symbol_table hands back nothing only on an edge that established that the reader has no current table or only the system table (ORD-APPENDCARRY). An import leaves readImport as nil, as a placeholder of the declared size, or as the result of Adjust(declared max_id) — never as the catalog's table as found (ORD-IMPADJUST).",
 		Necessary:  "A version marker that keeps the old table, a table struct surfacing as a user value, or a panic on a typed null in a table slot (F8, fixed) each break resolution against the table in force.",
 		NotDecided: "append/replace semantics, catalog fallback order, max_id trimming/padding",
-		Technique:  "SSA must-pass-through and nil-fact dataflow; forward path search from every assignment of the current table to an exit (token-holding fields); boundary extraction" + "; must-pass-through (append per loop iteration); index-constant check of the annotation compared" + "; edge-condition check of the exits of the append case",
+		Technique:  "SSA must-pass-through and nil-fact dataflow; forward path search from every assignment of the current table to an exit (token-holding fields); boundary extraction" + "; must-pass-through (append per loop iteration); index-constant check of the annotation compared" + "; edge-condition check of the exits of the append case" + "; value-origin check of readImport's result",
 		DesignRef:  "DESIGN.md §3.2, §3.5, §4 C10",
-		Rules:      []Rule{rOrdBVMReset, rOrdLstHide, {"NIL-ACC", rules.NilAcc(rules.ScopeLST, 4)}, rTokCache, only(rBounds, 1, funcHas("readImport")), rTextIVM, rAppEach, rLSTAnn, rAppCarry},
+		Rules:      []Rule{rOrdBVMReset, rOrdLstHide, {"NIL-ACC", rules.NilAcc(rules.ScopeLST, 4)}, rTokCache, only(rBounds, 1, funcHas("readImport")), rTextIVM, rAppEach, rLSTAnn, rAppCarry, rImpAdj},
 	},
 	"C11": {
 		Decided:    "The field names and the annotation the symbol table writer emits are exactly those the symbol table reader dispatches on, max_id included (TAB-LSTFIELDS); the fixed/imported table is written before the first value (ORD-LSTFIRST); the builder consults imports and existing entries before defining a local symbol (ORD-FIRSTWINS); token text reaches the table lookup as it is — never through the '$n' interpretation, which would bypass a fixed table's 'not defined' error and emit an arbitrary ID (OWN-TEXTAUTH, binary writer obligations); with a fixed table, text it does not define ends in a non-nil error (OWN-FIXEDLST). No exported function of package ion ignores one of its named parameters, so shared tables, catalogs and options handed to a constructor or Marshal helper reach the writer (OWN-PARAMUSED). Every table sst.Adjust(n) returns has max_id n (TAB-ADJUSTMAX); lst.WriteTo writes one list element per entry of the table's symbols (ORD-APPENDEACH, writer obligation). A writer serialises its symbol table through its own methods only after clear() (ORD-LSTCLEAN).",
@@ -498,6 +500,8 @@ var devRules = map[string]Rule{
 	"TAB-READVIA":     rReadVia,
 	"NUM-BIGFIT":      rBigFit,
 	"ORD-POOLRESET":   rPoolRst,
+	"TAB-SKIPARMS":    rSkipArms,
+	"ORD-IMPADJUST":   rImpAdj,
 	"OWN-BIGFRESH":    rBigFresh,
 	"NUM-NARROW-TU":   {"NUM-NARROW", rules.NumNarrow(rules.Scope{Name: "textutils.go", Pkgs: []string{"ion"}, Files: []string{"textutils.go"}}, nil, 0)},
 	"NUM-NARROW":      {"NUM-NARROW", rules.NumNarrow(rules.ScopeNum, rules.NarrowResiduals, 0)},
